@@ -225,6 +225,8 @@ func runC07(c *core.Ctx) {
 	c07ClientWrap(c)
 	c07Prefixes(c)
 	prefixBuiltOnEveryPath(c, "C07.R6")
+	errorBodyLimitIsConstant(c, "C07.R5")
+	returnedResponseBodyOpen(c, "C07.R8")
 	c07Is(c)
 }
 
